@@ -665,3 +665,54 @@ pub mod codecs {
         })
     }
 }
+
+/// Events: internal steps of the database reported to a harness-installed observer. With no
+/// observer installed an event costs one read-lock.
+pub mod events {
+    use std::sync::{Arc, RwLock};
+
+    /// (user key, sequence, operation tag)
+    pub type Key = (Vec<u8>, u64, u8);
+
+    #[derive(Clone, Debug)]
+    pub enum Event {
+        /// a version change was written to the manifest and installed as the current version
+        VersionInstalled {
+            deleted: Vec<(usize, u64)>,
+            added: Vec<(usize, u64, u64, Key, Key)>,
+            last_sequence: u64,
+        },
+        /// a merging compaction starts with these inputs and this oldest-snapshot bound
+        CompactionStart {
+            level: usize,
+            inputs0: Vec<u64>,
+            inputs1: Vec<u64>,
+            smallest_snapshot: u64,
+        },
+        /// an automatic compaction was carried out as a trivial move
+        TrivialMove { level: usize, file: u64 },
+    }
+
+    type Observer = Arc<dyn Fn(&Event) + Send + Sync>;
+
+    static OBSERVER: RwLock<Option<Observer>> = RwLock::new(None);
+
+    pub fn install(observer: Observer) {
+        *OBSERVER.write().unwrap() = Some(observer);
+    }
+
+    pub fn uninstall() {
+        *OBSERVER.write().unwrap() = None;
+    }
+
+    pub fn is_installed() -> bool {
+        OBSERVER.read().unwrap().is_some()
+    }
+
+    pub fn emit(event: Event) {
+        let observer = OBSERVER.read().unwrap().clone();
+        if let Some(observer) = observer {
+            observer(&event);
+        }
+    }
+}
